@@ -465,6 +465,9 @@ type Server struct {
 	c1       *http.Client
 	c2       *http.Client
 	errLog   *logSink
+	rawOnce  sync.Once
+	raw1     *http.Client
+	raw2     *http.Client
 }
 
 // logSink captures the servers' error log (net/http reports recovered handler
@@ -545,10 +548,30 @@ func (s *Server) HTTPClient(http2 bool) (*http.Client, string, *wire.Tap) {
 	return s.c1, s.H1.URL, s.Tap1
 }
 
+// RawClients builds a client set against this server without the recording
+// tap (the race-detector workload must not add synchronisation of its own
+// around the transport).
+func (s *Server) RawClients(http2 bool, opts ...connect.ClientOption) *ClientSet {
+	s.rawOnce.Do(func() {
+		t1 := s.Tap1.Next.(*http.Transport).Clone()
+		t2 := s.Tap2.Next.(*http.Transport).Clone()
+		s.raw1 = &http.Client{Transport: t1}
+		s.raw2 = &http.Client{Transport: t2}
+	})
+	if http2 {
+		return NewClientSet(s.raw2, s.H2.URL, opts...)
+	}
+	return NewClientSet(s.raw1, s.H1.URL, opts...)
+}
+
 // Close stops both servers.
 func (s *Server) Close() {
 	s.c1.CloseIdleConnections()
 	s.c2.CloseIdleConnections()
+	if s.raw1 != nil {
+		s.raw1.CloseIdleConnections()
+		s.raw2.CloseIdleConnections()
+	}
 	done := make(chan struct{})
 	go func() {
 		s.H1.CloseClientConnections()
